@@ -8,12 +8,20 @@ Property theorems about the backward slicer of `Model/Slice.lean` (mirror of
 (any list of events, no well-formedness assumption) and arbitrary criteria; the traces of the
 PyMini interpreter (`Model/PyMini.lean`) are instances.
 
-(a) checked lines ⊆ executed lines: `checked_lines_were_executed`.
+(a) checked lines ⊆ executed lines: `checked_lines_were_executed` (assertions),
+    `statement_checked_lines_were_executed` (statements: `compute_statement_checked_lines` with its
+    per-statement `_cleanse_included_implicit_return_none`).
 (b) a slice contains only executed steps and its criterion: `slice_only_executed`,
     `slice_contains_criterion`, `slice_lines_were_executed`.
 (c) every step the criterion depends on (data or control, transitively) is in the slice, and nothing
     else: `slice_is_dependence_closure`, `slice_closed_under_dependence`, `slice_is_least`;
     semantic reading of the data part: `slice_replay_reproduces_values`.
+    For the lines a test case reports as checked by its statements: every line a bound statement's
+    value depends on is reported, whatever statements come before or after it, except the line of that
+    statement's own trailing `return None` (`statement_dependence_lines_checked`,
+    `statement_checked_lines_accumulate`, `cleansing_drops_only_own_return_none_line`,
+    `statement_checked_lines_monotone`); cleansing the ACCUMULATED set instead loses such lines
+    (`acc_then_cleanse_cex`: `put(5); x = get(); n = put(7)` on an object).
 
 The real slicer keys local variables by *code object*, not by frame.  `C09_full` states (c) for
 that keying; it is false (`C09_code_keyed_cex`, a directly recursive function — reproduced on the
@@ -86,6 +94,115 @@ theorem checked_lines_were_executed (tr : Trace) (crits : List Nat)
     (hc : ∀ c ∈ crits, c < tr.length) : ∀ l ∈ checkedLines tr crits, l ∈ executedLines tr :=
   checkedLines_subset_executed tr crits hc
 
+/-! ## Statements: `compute_statement_checked_lines` (cleanse per statement, then accumulate) -/
+
+/-- (a) for the statement path: whatever the criteria and whatever steps are `return None`s. -/
+theorem statement_checked_lines_were_executed (tr : Trace) (rn : Nat → Bool) (crits : List Nat)
+    (hc : ∀ c ∈ crits, c < tr.length) :
+    ∀ l ∈ stmtCheckedLines tr rn crits, l ∈ executedLines tr :=
+  stmtCheckedLines_subset_executed tr rn crits hc
+
+/-- What one statement contributes is in the result: no other statement (earlier or later) can take
+a line out again. -/
+theorem statement_checked_lines_accumulate (tr : Trace) (rn : Nat → Bool) (crits : List Nat)
+    {c : Nat} (hc : c ∈ crits) :
+    ∀ l ∈ stmtLines tr rn c, l ∈ stmtCheckedLines tr rn crits :=
+  fun _ hl => mem_stmtCheckedLines.2 ⟨c, hc, hl⟩
+
+/-- Adding statements to a test case never removes a checked line. -/
+theorem statement_checked_lines_monotone (tr : Trace) (rn : Nat → Bool) (crits more : List Nat) :
+    ∀ l ∈ stmtCheckedLines tr rn crits, l ∈ stmtCheckedLines tr rn (crits ++ more) := by
+  intro l hl
+  obtain ⟨c, hc, h⟩ := mem_stmtCheckedLines.1 hl
+  exact mem_stmtCheckedLines.2 ⟨c, List.mem_append_left _ hc, h⟩
+
+/-- The cleansing of a statement drops at most one line of its slice: the line of a `return None`
+step of that very slice (the one directly before the criterion). -/
+theorem cleansing_drops_only_own_return_none_line (tr : Trace) (rn : Nat → Bool) (c l : Nat)
+    (hl : l ∈ sliceLines tr c) (hn : l ∉ stmtLines tr rn c) :
+    cleanseLine tr rn (sliceBack tr c) = some l ∧
+      ∃ r ∈ sliceBack tr c, rn r = true ∧ (evAt tr r).line = l := by
+  have h1 : cleanseLine tr rn (sliceBack tr c) = some l := by
+    apply Classical.byContradiction
+    intro hne
+    exact hn (mem_cleanse.2 ⟨hl, hne⟩)
+  exact ⟨h1, cleanseLine_spec h1⟩
+
+/-- (c) for the lines reported as checked by the statements of a test case: every line the value
+stored by a bound statement depends on is reported — except the line of that statement's own
+trailing `return None`, which `_cleanse_included_implicit_return_none` takes out of that statement's
+contribution (it may still come in through another statement). -/
+theorem statement_dependence_lines_checked (tr : Trace) (rn : Nat → Bool) (crits : List Nat)
+    (c i : Nat) (hc : c ∈ crits) (h : Reach tr c i) (hl : (evAt tr i).line ≠ 0)
+    (hk : cleanseLine tr rn (sliceBack tr c) ≠ some (evAt tr i).line) :
+    (evAt tr i).line ∈ stmtCheckedLines tr rn crits :=
+  mem_stmtCheckedLines.2 ⟨c, hc, mem_cleanse.2 ⟨dependence_lines_in_slice tr c i h hl, hk⟩⟩
+
+/-- The other order — merge the statement's lines into the accumulated set, then cleanse the
+accumulated set — as a counter-model. -/
+def accThenCleanseLoop (tr : Trace) (rn : Nat → Bool) : List Nat → List Nat → List Nat
+  | [], acc => acc
+  | c :: rest, acc =>
+    accThenCleanseLoop tr rn rest (cleanse tr rn (sliceBack tr c) (acc ++ sliceLines tr c))
+
+/-- `statement_dependence_lines_checked` for that order: false. -/
+def AccThenCleanseComplete : Prop :=
+  ∀ (tr : Trace) (rn : Nat → Bool) (crits : List Nat) (c i : Nat), c ∈ crits → Reach tr c i →
+    (evAt tr i).line ≠ 0 → cleanseLine tr rn (sliceBack tr c) ≠ some (evAt tr i).line →
+    (evAt tr i).line ∈ accThenCleanseLoop tr rn crits []
+
+/-- `class C0: a0 = 0; def m0(self, v0): self.a0 = v0 (line 4); def m1(self): return self.a0 (line 6)`
+with the test `int_0 = 5; obj_1 = C0(); none_2 = obj_1.m0(int_0); int_3 = obj_1.m1();
+none_4 = obj_1.m0(int_0)` — every statement bound. -/
+def boxProg : Prog :=
+  { ginit := [],
+    funs := [{ defLn := 3, np := 1, body := [.asg 4 (.at .self 0) (.l 0)], retLn := 4, ret := .k 0,
+               void := true, cls := 1 },
+             { defLn := 5, np := 0, body := [], retLn := 6, ret := .at .self 0,
+               void := false, cls := 1 }],
+    classes := [{ ln := 1, defaults := [(2, 0, 0)], init := none }],
+    test := [.const 5, .new 0 [], .mcall 1 0 [0], .mcall 1 1 [], .mcall 1 0 [0]],
+    asserts := [] }
+
+def boxResult : Result := (run boxProg 100).getD ⟨[], [], [], [], [], []⟩
+def boxRetNone : Nat → Bool := fun q => boxResult.retNone.contains q
+
+/-- The value of `int_3` depends on line 4 (`self.a0 = v0`, which also carries `m0`'s implicit
+`return None`) and on line 6; the model of the code reports both, the other order loses line 4 to
+the later `none_4 = obj_1.m0(int_0)`. -/
+theorem box_witness :
+    (sliceLines boxResult.trace (boxResult.crits.getD 3 0)).eraseDups = [4, 6] ∧
+    (stmtLines boxResult.trace boxRetNone (boxResult.crits.getD 4 0)) = [] ∧
+    (stmtCheckedLines boxResult.trace boxRetNone boxResult.crits).eraseDups = [4, 6] ∧
+    (accThenCleanseLoop boxResult.trace boxRetNone boxResult.crits []).eraseDups = [6] := by
+  decide +kernel
+
+theorem acc_then_cleanse_cex : ¬ AccThenCleanseComplete := by
+  intro h
+  have hex : ∃ i, i ∈ sliceBack boxResult.trace (boxResult.crits.getD 3 0) ∧
+      (evAt boxResult.trace i).line = 4 := by decide +kernel
+  obtain ⟨i, hi, hl⟩ := hex
+  have hc : boxResult.crits.getD 3 0 ∈ boxResult.crits := by decide +kernel
+  have hk : cleanseLine boxResult.trace boxRetNone
+      (sliceBack boxResult.trace (boxResult.crits.getD 3 0)) = none := by decide +kernel
+  have h4 := h boxResult.trace boxRetNone boxResult.crits _ i hc
+    ((mem_sliceBack_iff_reach _ _ i).mp hi) (by rw [hl]; decide) (by rw [hk]; simp)
+  rw [hl] at h4
+  have hn : 4 ∉ accThenCleanseLoop boxResult.trace boxRetNone boxResult.crits [] := by
+    decide +kernel
+  exact hn h4
+
+/-- Non-vacuity of `statement_dependence_lines_checked` on the same execution: the hypotheses hold for
+the criterion of `int_3` and a step on line 4, and the conclusion is the non-trivial `4 ∈ …`. -/
+example : ∃ i, i ∈ sliceBack boxResult.trace (boxResult.crits.getD 3 0) ∧
+    (evAt boxResult.trace i).line = 4 ∧
+    cleanseLine boxResult.trace boxRetNone (sliceBack boxResult.trace (boxResult.crits.getD 3 0)) ≠ some 4 ∧
+    4 ∈ stmtCheckedLines boxResult.trace boxRetNone boxResult.crits := by decide +kernel
+
+/-- … and the cleansing really fires for the void statements (their own line 4 is dropped). -/
+example : cleanseLine boxResult.trace boxRetNone
+    (sliceBack boxResult.trace (boxResult.crits.getD 4 0)) = some 4 := by decide +kernel
+
 /-! ## Keying local variables by code object (what pynguin does) -/
 
 /-- (c) for a slicer that sees frame `s` as code object `f s`. -/
@@ -111,11 +228,12 @@ def witnessProg : Prog :=
       [.ite 2 ⟨.gt, .l 0, .k 0⟩
         [.asg 3 (.l 1) (.k 1), .call 4 (.l 2) 0 [.bin .sub (.l 0) (.k 1)]]
         [.asg 6 (.l 1) (.k 6), .asg 7 (.l 2) (.k 0)]],
-      8, .l 1⟩],
+      8, .l 1, false, 0⟩],
+    classes := [],
     test := [.const 1, .call 0 [0]],
     asserts := [] }
 
-def witnessResult : Result := (run witnessProg 100).getD ⟨[], [], [], [], []⟩
+def witnessResult : Result := (run witnessProg 100).getD ⟨[], [], [], [], [], []⟩
 def witnessTrace : Trace := witnessResult.trace
 def witnessCrit : Nat := witnessResult.crits.getD 1 0
 def witnessKey : Nat → Nat := codeOfFn witnessResult.codeOf
@@ -160,12 +278,13 @@ def loopProg : Prog :=
       [.asg 2 (.l 1) (.k 0), .asg 3 (.l 2) (.k 0),
        .wh 4 ⟨.lt, .l 2, .bin .mod (.l 0) (.k 4)⟩
          [.asg 5 (.l 2) (.bin .add (.l 2) (.k 1)), .asg 6 (.l 1) (.l 0)]],
-      7, .l 1⟩],
+      7, .l 1, false, 0⟩],
+    classes := [],
     test := [.const 3, .call 0 [0]],
     asserts := [] }
 
-def loopStrong : Result := (run loopProg 200 true).getD ⟨[], [], [], [], []⟩
-def loopWeak : Result := (run loopProg 200 false).getD ⟨[], [], [], [], []⟩
+def loopStrong : Result := (run loopProg 200 true).getD ⟨[], [], [], [], [], []⟩
+def loopWeak : Result := (run loopProg 200 false).getD ⟨[], [], [], [], [], []⟩
 
 theorem loop_witness_slices :
     (sliceLines loopStrong.trace (loopStrong.crits.getD 1 0)).eraseDups = [3, 4, 5, 6, 7] ∧
